@@ -3,6 +3,7 @@ package oracle
 import (
 	"encoding/hex"
 	"math/big"
+	"sort"
 	"strconv"
 	"strings"
 
@@ -213,10 +214,4 @@ func emittedMessages(w *world.World, c *world.Call, res *world.CallResult) []*Ms
 	return out
 }
 
-func sortStrings(s []string) {
-	for i := 1; i < len(s); i++ {
-		for j := i; j > 0 && s[j] < s[j-1]; j-- {
-			s[j], s[j-1] = s[j-1], s[j]
-		}
-	}
-}
+func sortStrings(s []string) { sort.Strings(s) }
